@@ -82,6 +82,24 @@ theorem spec_msgKinds (side : Side) (h : ReqRecv.Bytes) (ds : List ReqRecv.Bytes
   rw [expected_Ds]
   cases tr <;> simp [expected, atStop, trObs]
 
+/-- the positional header hypothesis of C03 for a valid message: the head block is an acceptable
+    head, the trailer block (if any) an acceptable trailer section -/
+theorem hdrsOkK_msgKinds (H : ReqRecv.Hdr) (h : ReqRecv.Bytes) (ds : List ReqRecv.Bytes) (tr : Option ReqRecv.Bytes)
+    (hh : H.head h = .ok) (hT : ∀ t, tr = some t → H.trailer t = .ok) :
+    HdrsOkK H .head (msgKinds h ds tr) := by
+  have hD : ∀ (ds : List ReqRecv.Bytes) (r : List K), hdrBlocks (ds.map K.D ++ r) = hdrBlocks r := by
+    intro ds r
+    induction ds with
+    | nil => rfl
+    | cons d ds ih => simpa [hdrBlocks] using ih
+  rw [hdrsOkK_iff]
+  unfold msgKinds
+  simp only [hdrBlocks]
+  rw [hD]
+  cases tr with
+  | none => exact ⟨hh, trivial⟩
+  | some t => exact ⟨hh, hT t rfl⟩
+
 /-- the HEADERS blocks among the tokens of a valid message are its head and its trailers -/
 theorem headers_mem_msgToks (h : ReqRecv.Bytes) (ds : List ReqRecv.Bytes) (tr : Option ReqRecv.Bytes)
     (b : ReqRecv.Bytes) (hb : FS.Tok.frame (Frame.headers b) ∈ msgToks h ds tr) : b = h ∨ tr = some b := by
@@ -126,8 +144,7 @@ theorem noRaw_of_msgToks (w : FS.Bytes) (p : FS.PSt) (h : ReqRecv.Bytes) (ds : L
     chunks in any way, then FIN on a frame boundary; every bound at least the model's own. -/
 theorem chunked_outcome_fin_fuel (role : Role) (H : ReqRecv.Hdr) (pre post : List FS.Ev) (fuel : Nat)
     (hpre : OnlyChunks pre) (hsc : FS.ScriptOK (pre ++ .fin :: post)) (hraw : NoRaw (FS.evBytes pre))
-    (hH : ∀ b, FS.Tok.frame (.headers b) ∈ (FS.run FS.frameDec (.hdr []) (FS.evBytes pre)).2 →
-      H.head b = .ok ∧ H.trailer b = .ok)
+    (hH : HdrsOkK H .head (kindsOf (FS.run FS.frameDec (.hdr []) (FS.evBytes pre)).2))
     (hclean : (FS.run FS.frameDec (.hdr []) (FS.evBytes pre)).1 = .hdr [])
     (hfuel : fsFuel ({}, pre ++ .fin :: post) ≤ fuel) :
     (spec (sideOf role) (kindsOf (FS.run FS.frameDec (.hdr []) (FS.evBytes pre)).2) .fin).accepts
@@ -136,15 +153,7 @@ theorem chunked_outcome_fin_fuel (role : Role) (H : ReqRecv.Hdr) (pre post : Lis
   have hup : FS.upToFin (pre ++ .fin :: post) = pre := FS.upToFin_fin pre post hfin
   obtain ⟨toks, e, hR, hwf, hfuel0, hhdr, htied⟩ :=
     lift_exists (pre ++ .fin :: post) hsc (by rw [hup]; exact hraw)
-  have hok : ∀ tok ∈ toks, TokWF tok ∧ HdrOk H tok := by
-    intro tok htok
-    refine ⟨hwf tok htok, ?_⟩
-    cases tok with
-    | headers b =>
-      obtain ⟨more, hm⟩ := tied_prefix htied
-      rw [hup] at hm
-      exact hH b (by rw [← hm]; exact List.mem_append_left _ (hhdr b htok))
-    | _ => trivial
+  have hok : HdrsOk H toks := tied_hdrsOk H htied (by rw [hup]; exact hH)
   have hdoc : documented role fsSrc H fuel { src := ({}, pre ++ .fin :: post) } =
       documented role tokSrc H fuel { src := TS.ofToks toks e } :=
     same_documentedP liftR_sim tokSrc_hdrNoData role H fuel (x := { src := ({}, pre ++ .fin :: post) })
@@ -152,7 +161,7 @@ theorem chunked_outcome_fin_fuel (role : Role) (H : ReqRecv.Hdr) (pre post : Lis
   obtain ⟨he, hk⟩ := tied_fin_exact hpre htied hclean
   subst he
   rw [hdoc, ← hk]
-  exact recv_spec role H .fin toks fuel hok (by omega)
+  exact recv_spec role H .fin toks fuel hwf hok (by omega)
 
 /-! the transport script of a healthy stream -/
 
